@@ -39,6 +39,10 @@ func (m *Map) Find(id uint64) (schema.Node, error) {
 	if err != nil {
 		return schema.Node{}, err
 	}
+	// The nodes are cached and read again on every use, so a finite
+	// traversal budget would eventually be spent.  The schema comes from
+	// the registry of compiled-in schemas, not from the network.
+	msg.ResetReadLimit(^uint64(0))
 	req, err := schema.ReadRootCodeGeneratorRequest(msg)
 	if err != nil {
 		return schema.Node{}, err
